@@ -41,14 +41,12 @@ Theorem c05_exact_scalars :
   (forall k s fi v, convert_set k s fi = Ok v ->
      leaf_agrees k (match fi with Some i => JNum s i | None => JStr s None end) v = true) /\
   (forall t o raw fi w, json_number t o raw fi = Ok w -> agrees t (JNum raw fi) w = true) /\
-  (forall w z raw fi, leaf_agrees (KInt w) (JNum raw fi) (VInt z) = true -> parse_signed raw = Some z /\ fits_int w z = true) /\
-  (forall w z raw fi, leaf_agrees (KUint w) (JNum raw fi) (VInt z) = true -> parse_signed raw = Some z /\ fits_uint w z = true).
+  (forall w z raw fi, leaf_agrees (KInt w) (JNum raw fi) (VInt z) = true -> denotes_int raw z = true /\ fits_int w z = true) /\
+  (forall w z raw fi, leaf_agrees (KUint w) (JNum raw fi) (VInt z) = true -> denotes_int raw z = true /\ fits_uint w z = true).
 Proof.
   split; [exact (convert_set_exact None)|]. split; [intros; eapply json_number_exact; eauto|]. split.
-  - intros w z raw fi H. simpl in H. destruct (parse_signed raw); [|discriminate]. apply andb_true_iff in H as [H1 H2].
-    apply Z.eqb_eq in H1. subst. auto.
-  - intros w z raw fi H. simpl in H. destruct (parse_signed raw); [|discriminate]. apply andb_true_iff in H as [H1 H2].
-    apply Z.eqb_eq in H1. subst. auto.
+  - intros w z raw fi H. simpl in H. apply andb_true_iff in H. exact H.
+  - intros w z raw fi H. simpl in H. apply andb_true_iff in H. exact H.
 Qed.
 Print Assumptions c05_exact_scalars.
 
